@@ -164,9 +164,10 @@ def s5(ctx, rep):
     rep.put(ok, "S5", "agreement", "RungSystem.__init__ stores rungs highest level first, each with its own quantile", init, None, "")
     # skip_rungs at the call flows from the trial's bracket
     h = P.method("HyperbandBracketManager", "on_task_report")
-    call = [x for x in walk_shallow(h.node) if isinstance(x, ast.Call) and fn_name(x) == "on_task_report" and "rung_sys" in U(x.func.value)]
     from ..engine import var_from_call
     skv = var_from_call(h, "_get_rung_system", 2)
+    rsv = var_from_call(h, "_get_rung_system", 0)
+    call = [x for x in walk_shallow(h.node) if isinstance(x, ast.Call) and fn_name(x) == "on_task_report" and U(x.func.value) == rsv]
     ok = len(call) == 1 and skv is not None and U(kwarg(call[0], "skip_rungs", 2)) == skv
     ds = local_defs(h, skv) if skv else []
     ok = ok and len(ds) == 1 and isinstance(ds[0], tuple) and fn_name(ds[0][1]) == "_get_rung_system" and U(ds[0][1].args[0]) == "trial_id"
